@@ -651,7 +651,7 @@ class BuildEngine(Engine):
             self._oracle(scenario, run, sim, st, err, 'serial', k)
         for k, (st, err) in enumerate(par):
             self._oracle(scenario, run, sim, st, err, 'par', k)
-        if len(ref) != len(par):
+        if len(ref) != len(par) and not (par and queue_timeout(*par[-1])):
             run.violate('outcome-differs', f'serial flow ran {len(ref)} build steps, parallel {len(par)}')
         for k, ((rst, rerr), (st, err)) in enumerate(zip(ref, par)):
             # same library as a serial build
